@@ -1,7 +1,9 @@
 /-! Close monitor (C13). Events come from `harness/cmd/sim` (`cls` scenarios). `check` returns the rule an
 event breaks. What a model cannot exhibit is observed by the harness and enters here as events: the (virtual)
 duration of Close, and whether goroutines remained (the synctest bubble refuses to end with blocked
-goroutines; the driver turns that scenario outcome into the `leaked` event). Core Lean only. -/
+goroutines; the driver turns that scenario outcome into the `leaked` event), and the explicit count
+`leftover n`: after Close returned, every other client of the scenario was closed and virtual time was given,
+`n` goroutines of the bubble still have a frame of the client package. Core Lean only. -/
 namespace Model.Close
 
 abbrev Id := Nat
@@ -13,6 +15,7 @@ inductive Ev where
   | closeEnd (ms : Nat)
   | pollAfterClose (closed : Bool)
   | leaked                       -- goroutines of the client remained after everything was closed
+  | leftover (n : Nat)           -- counted after Close: goroutines that still run (or are blocked in) client code
   | quiesce
 deriving DecidableEq, Repr
 
@@ -26,6 +29,7 @@ structure St where
   closing : Bool := false
   closed : Bool := false
   polled : Bool := false
+  leftChecked : Bool := false
   quiet : Bool := false
 deriving Repr
 
@@ -44,9 +48,13 @@ def check (c : Cfg) (s : St) : Ev → Option String
     if !s.closed then some "C13.harness-poll-before-close-returned"
     else if !closed then some "C13.poll-after-close-not-errclientclosed" else none
   | .leaked => some "C13.goroutines-remain-after-close"
+  | .leftover n =>
+    if !s.closed then some "C13.harness-leftover-counted-before-close-returned"
+    else if n != 0 then some "C13.goroutines-remain-after-close" else none
   | .quiesce =>
     if !s.closed then some "C13.close-never-returned"
     else if !s.polled then some "C13.harness-no-poll-after-close"
+    else if !s.leftChecked then some "C13.harness-no-leftover-count-after-close"
     else if s.produced.any (fun i => !s.promised.contains i) then some "C13.promise-never-called-after-close"
     else none
 
@@ -57,6 +65,7 @@ def apply (_c : Cfg) (s : St) : Ev → St
   | .closeEnd _ => { s with closed := true }
   | .pollAfterClose _ => { s with polled := true }
   | .leaked => s
+  | .leftover _ => { s with leftChecked := true }
   | .quiesce => { s with quiet := true }
 
 def step (c : Cfg) (s : St) (e : Ev) : Option St := match check c s e with | none => some (apply c s e) | some _ => none
